@@ -38,6 +38,15 @@ for g in sorted(glob.glob(os.path.join(V, "seeded", "*", "meta.json"))):
     m = json.load(open(g))
     out.append("| %s | %s | %s | %s | %s |" % (m["id"], m["property"], esc(m["what"])[:230], esc(m["needs_to_manifest"])[:160], esc(m.get("caught_by", ""))[:260]))
 out.append("")
+out.append("### 12.4 Per-property build notes (as built; copied from design-notes/Cxx.md by tools/mkdesign.py)\n")
+for g in sorted(glob.glob(os.path.join(V, "design-notes", "C*.md"))):
+    pid = os.path.basename(g)[:-3]
+    out.append("#### %s — as built\n" % pid)
+    for line in open(g).read().split("\n"):
+        if line.startswith("#"):
+            line = "#####" + " " + line.lstrip("#").strip()
+        out.append(line)
+    out.append("")
 p = os.path.join(V, "DESIGN.md")
 s = open(p).read()
 B, E = "<!-- BEGIN GENERATED STATUS -->", "<!-- END GENERATED STATUS -->"
